@@ -80,6 +80,7 @@ func (s *Store) Push(b bpv7.Bundle) error {
 		if err := bi.Parts[0].storeBundle(b); err != nil {
 			return err
 		}
+		verifCrashPoint("push/part-written")
 
 		return s.bh.Insert(bi.Id, bi)
 	} else if bi.Fragmented {
@@ -113,6 +114,7 @@ func (s *Store) Push(b bpv7.Bundle) error {
 			if err := compPart.storeBundle(b); err != nil {
 				return err
 			}
+			verifCrashPoint("push/fragment-part-written")
 
 			biStore.Parts = append(biStore.Parts, compPart)
 			return s.bh.Update(biStore.Id, biStore)
@@ -150,6 +152,7 @@ func (s *Store) Delete(bid bpv7.BundleID) error {
 					"error":  err,
 				}).Warn("Failed to delete BundlePart")
 			}
+			verifCrashPoint("delete/part-removed")
 		}
 
 		return s.bh.Delete(bi.Id, BundleItem{})
